@@ -233,9 +233,9 @@ func configs(quick bool) []cfg {
 	// shows when a non-last file is finished (size mode closes file k when it opens file k+1)
 	for _, p := range []int{2, 3, 4} {
 		f := vf.VFS{"/vfs/in.dkvp": dkvpRecs(p)}
-		// (-g and -m are left to C20 and to the real-binary layer below: with two handlers open at end of stream they are
-		// closed in Go map-iteration order, a source of nondeterminism the scheduler does not own - replays diverge)
-		for _, mode := range [][]string{{"-n", "2"}, {"-n", "3"}} {
+		// (with two handlers open at end of stream they are closed in Go map-iteration order; the sched build iterates those
+		// maps in sorted key order - tools/vinstr sortedRangeSites - so that the scheduler owns this choice too)
+		for _, mode := range [][]string{{"-n", "2"}, {"-n", "3"}, {"-m", "2"}, {"-g", "i"}} {
 			add(cfg{Kind: "split-writer-multi", Name: fmt.Sprintf("split-writer-multi:split %s:p=%d", strings.Join(mode, " "), p),
 				Argv: append(append([]string{"--ocsv", "split"}, mode...), "--prefix", "@D/sp", "/vfs/in.dkvp"), Files: f, Must: mode[0] != "-g" && !(mode[0] == "-m" && p >= 3) && !(mode[0] == "-n" && mode[1] == "3" && p == 4) && !(mode[0] == "-n" && mode[1] == "2" && p == 3)})
 		}
